@@ -49,6 +49,30 @@ def tok_of_target(path, target):
     return "raw:" + target
 
 
+# Concrete names for the model's abstract names a, b, d and the child name.  The model does not depend on names; the
+# transports take URL-escaped paths, so the real code does: every behaviour class is replayed under names that need
+# escaping (a literal %XX, a bare '%', '#', space, non-ASCII).  First characters keep the string order a < b < d.
+NAMINGS = {
+    "plain": {"a": "a", "b": "b", "d": "d", "child": "a"},
+    "pct": {"a": "a%20b", "b": "b%", "d": "d%41 x", "child": "a%2Fc"},
+    "wild": {"a": "a \u00e9", "b": "b#\u00fc", "d": "d\u00e9 #", "child": "\u00e4 b"},
+}
+
+
+def conc(path, naming):
+    """Abstract path (list of segments) -> concrete relative path."""
+    m = NAMINGS[naming]
+    return "/".join([m.get(path[0], path[0])] + [m["child"] if x == "a" else x for x in path[1:]])
+
+
+def abst(rel, naming):
+    """Concrete relative path -> abstract segments (names the naming does not know stay as they are)."""
+    m = NAMINGS[naming]
+    top = {v: k for k, v in m.items() if k != "child"}
+    segs = rel.split("/")
+    return [top.get(segs[0], segs[0])] + ["a" if x == m["child"] else x for x in segs[1:]]
+
+
 def cfg(maxedits, onlysafe, symlinks=True, inits=("files", "links"), extra=""):
     return ("SPECIFICATION Spec\nCONSTANTS\n  MaxEdits = %d\n  Symlinks = %s\n  OnlySafe = %s\n  InitNames = {%s}\n"
             "CONSTRAINT SafeOnly\nINVARIANT TypeOK\n" % (maxedits, "TRUE" if symlinks else "FALSE",
@@ -61,8 +85,9 @@ PROVED = "INVARIANT UploadCorrect\nINVARIANT UploadNeverFails\nPROPERTY MarkerHo
 
 # ----------------------------------------------------------------------------- the real world
 class World:
-    def __init__(self, workdir, k, memory=False):
+    def __init__(self, workdir, k, memory=False, naming="plain"):
         from breezy import controldir
+        self.naming = naming
         self.w = os.path.join(workdir, "w%d" % k)
         self.wt = controldir.ControlDir.create_standalone_workingtree(
             self.w, format=controldir.format_registry.make_controldir("2a"))
@@ -102,7 +127,7 @@ class World:
                     os.unlink(p)
             ents = sorted(tree, key=lambda e: len(e["path"]))
             for e in ents:
-                p = os.path.join(root, *e["path"])
+                p = os.path.join(root, conc(e["path"], self.naming))
                 if e["kind"] == "dir":
                     os.mkdir(p)
                 elif e["kind"] == "symlink":
@@ -112,7 +137,7 @@ class World:
                         f.write(CONTENT[e["val"]])
                     os.chmod(p, 0o755 if e["exec"] else 0o644)
             if ents:
-                wt.add(["/".join(e["path"]) for e in ents], ids=[b"i%d" % e["id"] for e in ents])
+                wt.add([conc(e["path"], self.naming) for e in ents], ids=[b"i%d" % e["id"] for e in ents])
 
     def commit(self, tree):
         self.sync(tree)
@@ -134,7 +159,7 @@ class World:
         for path, (kind, val, ex) in vworld.tree_proj(rt).items():
             if path in (".bzrignore", ".bzrignore-upload"):
                 continue
-            out.append(self._abstract(path.split("/"), kind, val, ex))
+            out.append(self._abstract(abst(path, self.naming), kind, val, ex))
         return sorted(out, key=lambda e: e["path"])
 
     @staticmethod
@@ -153,17 +178,19 @@ class World:
             t = T.get_transport(self.r)
             if not t.has("."):
                 return []
+            from breezy import urlutils
             todo = [""]
             while todo:
-                d = todo.pop()
+                d = todo.pop()                      # transport paths are URL-escaped
                 for n in sorted(t.list_dir(d or ".")):
-                    rel = (d + "/" + n) if d else n
-                    st = t.stat(rel)
+                    erel = (d + "/" + n) if d else n
+                    rel = urlutils.unescape(erel)
+                    st = t.stat(erel)
                     if S.S_ISDIR(st.st_mode):
                         out.append((rel, "directory", None, False))
-                        todo.append(rel)
+                        todo.append(erel)
                     else:
-                        out.append((rel, "file", hashlib.sha1(t.get_bytes(rel)).hexdigest(), bool(st.st_mode & 0o100)))
+                        out.append((rel, "file", hashlib.sha1(t.get_bytes(erel)).hexdigest(), bool(st.st_mode & 0o100)))
         else:
             for rel, (kind, val, ex) in vworld.disk_proj(self.r, skip=()).items():
                 out.append((rel, kind, val, ex))
@@ -171,7 +198,7 @@ class World:
         for rel, kind, val, ex in out:
             if rel == MARKER:
                 continue
-            path = rel.split("/")
+            path = abst(rel, self.naming)
             if path[0].startswith(".tmp."):
                 path[0] = "tmp%d" % (stamps.index(path[0]) + 1) if path[0] in stamps else path[0]
             res.append(self._abstract(path, kind, val, ex))
@@ -328,8 +355,8 @@ def replay_paths(sub, chunk):
     from breezy.plugins.upload import cmds
     if ORIG is None:
         ORIG = cmds.BzrUploader
-    for k, (memory, path, states) in enumerate(chunk):
-        w = World(sub.workdir, k, memory)
+    for k, (memory, naming, path, states) in enumerate(chunk):
+        w = World(sub.workdir, k, memory, naming)
         try:
             replay_one(sub, w, path, states)
         finally:
@@ -390,7 +417,7 @@ def replay_one(sub, w, path, states):
         frm = ents_of(prev["upl"])
         to = ents_of(prev["hist"][-1])
         mode = cur["mode"] if cur["last"] != "refused" else ("full" if full else "incr")
-        rep = {"transport": "memory" if w.memory else "local", "log": log, "uploaded_tree": frm, "tip_tree": to,
+        rep = {"transport": "memory" if w.memory else "local", "names": dict(NAMINGS[w.naming], naming=w.naming), "log": log, "uploaded_tree": frm, "tip_tree": to,
                "remote_before": before, "remote_after": after, "model_unsafe": cur["unsafe"]}
         predicted = None
         if complete:
@@ -407,12 +434,12 @@ def replay_one(sub, w, path, states):
         sub.cov.setdefault("_collect", []).append(row)
         sub.count(1)
         if cur["unsafe"] == [] and outcome != "refused":
-            sub.nontrivial((w.memory, repr(frm), repr(to), mode))
+            sub.nontrivial((w.memory, w.naming, repr(frm), repr(to), mode))
         if outcome == "failed" or (outcome == "ok" and after != tree):
             break          # the property is already violated on this path; later steps would only repeat it
         i = j + 1
     if uploads and len(sub.cov["samples"]) < 1 and len(log) >= 4:
-        sub.sample({"transport": "memory" if w.memory else "local", "log": log})
+        sub.sample({"transport": "memory" if w.memory else "local", "names": NAMINGS[w.naming], "log": log})
 
 
 # ----------------------------------------------------------------------------- path selection
@@ -452,8 +479,11 @@ def run(ctx):
     nfailed = sum(1 for t in nodes.values() if 'last = "failed"' in t)
     if not nfailed:
         ctx.machinery("vacuity guard: the unpruned model has no failing upload")
-    # TLC's workers dump the graph in a run-dependent order: fix it, so that the seed alone decides what is replayed
-    edges, inits = sorted(edges), sorted(inits)
+    # TLC names the nodes by fingerprints that differ from run to run, and its workers dump them in any order: rename the
+    # nodes by the rank of their state text, so that the seed alone decides what is replayed
+    ren = {old: "n%06d" % i for i, old in enumerate(sorted(nodes, key=lambda n: nodes[n]))}
+    nodes = {ren[k]: v for k, v in nodes.items()}
+    edges, inits = sorted((ren[a], act, ren[b]) for a, act, b in edges), sorted(ren[i] for i in inits)
     paths = list(tlc.transition_cover(nodes, edges, inits, rng=ctx.rng))
     # a cover path may stop in the middle of an upload: run the (deterministic) remaining phases too
     succ = {}
@@ -465,31 +495,46 @@ def run(ctx):
     ctx.cov["graph"] = {"nodes": len(nodes), "edges": len(edges), "cover_paths": len(paths), "failed_states": nfailed}
     cache = {}
     groups = {}
-    for p in paths:
+    symfree = {}
+    for n, p in enumerate(paths):
         cl = upload_classes(p, nodes, cache)
         if cl:
-            groups.setdefault(cl[-1:], []).append(p)
-    want = (300 if ctx.quick else len(paths)) if ctx.tier != "tiny" else 40
-    picked = []
+            # names that need URL-escaping are only used where no symlink occurs (see Upload.tla, "Names")
+            symfree[n] = "symlink" not in "".join(nodes[nid] for _, nid in p)
+            groups.setdefault(cl[-1:] + (symfree[n],), []).append(n)
     keys = sorted(groups)
     for k in keys:
         ctx.rng.shuffle(groups[k])
-    while len(picked) < want and any(groups[k] for k in keys):
-        for k in keys:
-            if groups[k] and len(picked) < want:
-                picked.append(groups[k].pop())
+    hostile = [x for x in sorted(NAMINGS) if x != "plain"]
+    picked = []                 # (path index, naming)
+    per_class = {"tiny": 1, "quick": 3}.get(ctx.tier)
+    for k in keys:
+        mine = groups[k] if per_class is None else groups[k][:per_class]
+        if k[-1]:
+            # a symlink-free class: every naming at least once (the same path again if the class is small)
+            order = hostile + ["plain"]
+            for j in range(max(len(mine), len(order) if per_class != 1 else 1)):
+                picked.append((mine[j % len(mine)], order[j % len(order)]))
+        else:
+            picked.extend((n, "plain") for n in (mine[:2] if per_class else mine))
+    if ctx.tier == "tiny":
+        picked = picked[:40]
     ctx.cov["upload_classes"] = len(keys)
     jobs = []
     nmem = 0
-    for n, p in enumerate(picked):
-        nd = {nid: to_py(parse_state(nodes[nid])) for _, nid in p}
-        jobs.append((False, p, nd))
+    parsed = {}
+    for n, naming in picked:
+        p = paths[n]
+        if n not in parsed:
+            parsed[n] = {nid: to_py(parse_state(nodes[nid])) for _, nid in p}
+        nd = parsed[n]
+        jobs.append((False, naming, p, nd))
         # a MemoryTransport has other rename rules (and no symlinks): behaviours whose uploads the model calls safe must
         # come out right on it too; nothing else is claimed there
-        if "symlink" not in "".join(nodes[nid] for _, nid in p) and all(st["unsafe"] == [] for st in nd.values()):
+        if symfree[n] and all(st["unsafe"] == [] for st in nd.values()):
             nmem += 1
             if nmem % 2 == 0:
-                jobs.append((True, p, nd))
+                jobs.append((True, naming, p, nd))
     nsim = 0
     if thorough:
         # deeper: random behaviours of the unpruned model with one more commit, generated by TLC's simulator
@@ -498,14 +543,16 @@ def run(ctx):
             p = [(act if i else "Init", "s%d" % i) for i, (act, st) in enumerate(b)]
             nd = {"s%d" % i: to_py(st) for i, (act, st) in enumerate(b)}
             if any(a == "UploadStart" for a, _ in p):
-                jobs.append((False, p, nd))
+                free = not any(e["kind"] == "symlink" for st in nd.values() for t in st["hist"] for e in t)
+                jobs.append((False, (hostile + ["plain"])[nsim % 3] if free else "plain", p, nd))
                 nsim += 1
     ctx.rule("behaviours = paths of a transition cover of TLC's state graph of Upload.tla (initial commit + <= 2 one-edit commits / "
              "uncommits, uploads incremental / full / --overwrite anywhere, possibly skipping commits): %d cover paths in %d "
-             "classes by the model's (mode, unsafe reasons, outcome, error, kinds of change in the delta) of their last upload; replayed on a local "
-             "directory: %d (classes round-robin%s), every 2nd symlink-free, model-safe one also on a MemoryTransport%s; non-trivial = upload "
-             "whose delta the model calls safe; distinct = (transport, uploaded tree, tip tree, mode)"
-             % (len(paths), len(keys), len(picked), "" if ctx.quick else " = all",
+             "classes by the model's (mode, unsafe reasons, outcome, error, kinds of change in the delta) of their last upload and symlink-freeness; replayed on a local "
+             "directory: %d (%s; symlink-free classes under each of the namings plain / literal-%%XX / space-#-non-ASCII), every 2nd "
+             "symlink-free, model-safe one also on a MemoryTransport%s; non-trivial = upload "
+             "whose delta the model calls safe; distinct = (transport, naming, uploaded tree, tip tree, mode)"
+             % (len(paths), len(keys), len(picked), "3 per class" if ctx.quick else "all",
                 "; plus %d simulated behaviours with one more commit" % nsim if nsim else ""))
     core.fork_map(ctx, replay_paths, jobs)
     rows = ctx.collected
@@ -519,6 +566,8 @@ def run(ctx):
         tag = "" if meta["predicted_same"] else ":unpredicted"
         if meta["rep"]["transport"] == "memory":
             tag = ":memory"
+        if tag and meta["rep"]["names"]["naming"] != "plain":
+            tag += ":names-need-escaping"
         if "completes" in failed:
             name, phase, msg = meta["exc"]
             ctx.violation("upload-raises:%s:%s:%s%s" % (meta["mode"], phase, name, tag),
